@@ -23,7 +23,7 @@ CLAIMED = {
             "unreachable (induction over the token list, the delimiter stack and the expression tree through all five parser stages); a "
             "doubled space parses to the same tree up to positions or fails at the same place (lexer look-ahead lemma + position-"
             "parametricity of every parser stage, Proofs/ParseSim.v), and so does a space added next to '->' ',' '+' or just inside a "
-            "delimiter (on delimiter trees, Proofs/ParseSpace.v); the re-print clause is refuted by a witness (known finding F5); "
+            "delimiter (on de-duplicated token lists, through grouping, Proofs/ParseSpace.v); the re-print clause is refuted by a witness (known finding F5); "
             "tied to /repo by regenerated tables and an exhaustive + random differential correspondence against parse_op (class, site, "
             "positions, tree); re-printing of the trees that do print is decided by a direct oracle on the implementation (search step)",
             "Coq proof over a hand-written executable model + generated-table lemmas + differential correspondence", "DESIGN.md 3/C12"),
